@@ -127,7 +127,9 @@ func vDone(ok bool, label string) {
 		}
 	}
 }
-func vCover(label string) { vCovers = append(vCovers, label) }
+func vFireTimer(t *time.Timer)                   {}
+func vTimerLastReset(t *time.Timer) time.Duration { return -1 }
+func vCover(label string)                        { vCovers = append(vCovers, label) }
 func vNote(label string)  {}
 func vYield()             {}
 func vSettle()            { time.Sleep(30 * time.Millisecond) }
